@@ -50,6 +50,19 @@
       goroutine with the swaps stored by another: "TODO: fix consistency on
       control flow between orderSwapsResult and reg").
 
+    - [comb_offered_at cf reg d]: combinatorialSearch.Process under GOMAXPROCS =
+      [cf], per init() call (= per worker goroutine of bruteforcer.run at
+      distance [d]; a (register buffer, context) pair belongs to ONE goroutine)
+      the registers offered to check(), in order: the slice [piece] of the
+      candidates [flip_reg reg bs], [bs] in [subsets d 0 64] (the [d]-bit
+      combinations in combination-ID order).  [comb_offered cf reg maxd]: the
+      same for the distance-0 shortcut and the distances 1..maxd.  Several
+      workers exist only from distance 3 on (10000 combinations per worker;
+      [C03_ex_comb_workers]), i.e. beyond the default
+      MaxACMPolicyCombinatorialDistance = 2.
+    - [flip_reg reg bs]: ApplyBitFlipsBytes on the 8 little-endian bytes
+      [le_bytes 8 reg] of the register, read back with [of_le].
+
     Open finding (KNOWN_FINDINGS.json): C03-drop-all-not-searched ([_refuted]
     below).  Repaired in /repo (section "fixed" there): C03-D21-linear-blocks
     (92fa0d4: blocks clamped to [0, limit); [C03_linear_blocks_exact],
@@ -142,6 +155,54 @@ Theorem C03_combination_slices_cover : forall D (deqb : D -> D -> bool) st (log 
     (forall c, Valid (Z.of_nat (nlog D log)) c -> length c = k -> exists cs, In cs ws /\ In c cs).
 Proof. exact comb_partition. Qed.
 Print Assumptions C03_combination_slices_cover.
+
+(** the worker contexts of the combinatorial strategy: under every GOMAXPROCS the
+    1..GOMAXPROCS contexts of one distance are offered, jointly and in ID order,
+    every candidate of that distance exactly once; no context is idle *)
+Theorem C03_comb_workers_partition : forall cf reg d,
+  1 <= cf -> (d <= 64)%nat ->
+  concat (comb_offered_at cf reg d) = map (flip_reg reg) (subsets d 0 64) /\
+  (1 <= length (comb_offered_at cf reg d))%nat /\
+  Z.of_nat (length (comb_offered_at cf reg d)) <= cf /\
+  Forall (fun l => l <> []) (comb_offered_at cf reg d).
+Proof.
+  intros cf reg d H1 H2. split; [exact (comb_offered_at_partition cf reg d H1 H2)|].
+  exact (comb_offered_at_count cf reg d H1 H2).
+Qed.
+Print Assumptions C03_comb_workers_partition.
+
+(** what all contexts together are offered is the bit-flip part of the search
+    space of the property text (at most [maxd] bits flipped), whatever GOMAXPROCS *)
+Theorem C03_comb_workers_space : forall cf reg maxd v,
+  1 <= cf -> (maxd <= 64)%nat -> 0 <= reg < 2 ^ 64 ->
+  (In v (concat (comb_offered cf reg maxd)) <->
+   exists k bs, (k <= maxd)%nat /\ In bs (subsets k 0 64) /\ v = flip_reg reg bs).
+Proof. exact comb_offered_space. Qed.
+Print Assumptions C03_comb_workers_space.
+
+(** the hits of one distance, by which [outcomes] describes the strategy, are the
+    hits among what the worker contexts are offered, under every GOMAXPROCS *)
+Theorem C03_comb_hits_by_workers : forall D (deqb : D -> D -> bool) (pcr_init : Z -> D)
+    (extend : D -> D -> D) (pcr0data : Z -> Z -> D) st target cf loc tail reg ms d,
+  1 <= cf -> (d <= 64)%nat ->
+  comb_hits_at D deqb pcr_init extend pcr0data st target loc tail reg ms d
+  = somes (map (fun v => match acm_try D deqb pcr_init extend pcr0data st target loc tail ms v with
+                         | Some sw => Some (v, sw)
+                         | None => None
+                         end) (concat (comb_offered_at cf reg d))).
+Proof. exact comb_hits_at_workers. Qed.
+Print Assumptions C03_comb_hits_by_workers.
+
+(** the register buffer: [le_bytes] is the little-endian decomposition and
+    [of_le] reads a 64-bit register back *)
+Theorem C03_register_bytes : forall v,
+  (forall n, le_bytes (S n) v = (v mod 256) :: le_bytes n (v / 256)) /\
+  (0 <= v < 2 ^ 64 -> of_le (le_bytes 8 v) = v /\ flip_reg v [] = v).
+Proof.
+  intro v. split; [intro n; apply le_bytes_div_mod|].
+  intro H. split; [now apply of_le_le_bytes_8|now apply flip_reg_nil].
+Qed.
+Print Assumptions C03_register_bytes.
 
 (** * 3. Soundness: a reported result replays to the requested PCR0 *)
 
@@ -327,6 +388,18 @@ Example C03_ex_d21_fixed :
      outcomes term term_eqb Init Ext DataH st_d21 log_d21 tgt_d21_in cf
        = [FSome (mkResult 3 (Some (R0 - 1)) [] [])]).
 Proof. exact d21_fixed_witness. Qed.
+
+(** the workers of one combinatorial search: 4, 4, 3, 2, 1 of them for the 41664
+    three-bit candidates under GOMAXPROCS 4, 64, 3, 2, 1; one for two bits *)
+Example C03_ex_comb_workers :
+  let lens cf d := map (fun l => Z.of_nat (length l)) (comb_offered_at cf 5 d) in
+  lens 4 3%nat = [10416; 10416; 10416; 10416] /\
+  lens 64 3%nat = [10416; 10416; 10416; 10416] /\
+  lens 3 3%nat = [13888; 13888; 13888] /\
+  lens 2 3%nat = [20832; 20832] /\
+  lens 1 3%nat = [41664] /\
+  lens 64 2%nat = [2016].
+Proof. exact comb_workers_example. Qed.
 
 Example C03_ex_linear_limit_2 : lin_decs 2 4 = [0; 1] /\ lin_decs 2 1 = [0; 1].
 Proof. exact lin_decs_d21_fixed. Qed.
